@@ -193,3 +193,61 @@ func init() {
 		fmt.Println("recorded", len(fails), "inputs that fail on the pinned tree")
 	}
 }
+
+// tracesweep: development driver — which functions that evaluate Lisp forms satisfy the exit-forwarding
+// discipline without a hand-written contract?
+func init() {
+	extraCmds["tracesweep"] = func(args []string) {
+		fs := flag.NewFlagSet("tracesweep", flag.ExitOnError)
+		pkgs := fs.String("pkgs", "cl", "comma separated short package names")
+		match := fs.String("match", ".", "regexp on function names")
+		fs.Parse(args)
+		p, err := vc.Load("/repo", vc.ModPath, vc.ModPath+"/pkg/...", vc.ModPath+"/pp")
+		if err != nil {
+			fmt.Println(err)
+			os.Exit(2)
+		}
+		cs, _, err := vc.LoadContracts("/repo")
+		if err != nil {
+			fmt.Println("contracts:", err)
+			os.Exit(2)
+		}
+		cs.Attach(p)
+		want := map[string]bool{}
+		for _, k := range strings.Split(*pkgs, ",") {
+			want[k] = true
+		}
+		re := regexp.MustCompile(*match)
+		var names []string
+		for n := range p.Funcs {
+			names = append(names, n)
+		}
+		sort.Strings(names)
+		for _, n := range names {
+			fn := p.Funcs[n]
+			if !want[pkgShort(fn)] || !re.MatchString(n) || len(fn.Blocks) == 0 || fn.Parent() != nil || cs.ByFunc[n] != nil {
+				continue
+			}
+			if !vc.EvaluatesForms(fn) {
+				continue
+			}
+			cs.ByFunc[n] = &vc.Contract{Func: n, Loops: map[string][]*vc.Clause{}, Options: map[string]bool{"forward-exits": true}}
+			opt := vc.Options{Safety: false, InlineDepth: 2, InlineSize: 80, Contracts: cs}
+			so := &vc.SolveOpts{TimeoutMs: 3000, RaceTimeout: 6 * time.Second, Models: false}
+			r := vc.VerifyFunc(p, fn, opt, so)
+			delete(cs.ByFunc, n)
+			if r.Err != "" {
+				fmt.Println("ERR", n, firstLine(r.Err))
+				continue
+			}
+			bad := 0
+			for _, o := range r.Obls {
+				if o.Status != "discharged" {
+					bad++
+					fmt.Printf("  %-10s %s\n", o.Status, o.Name)
+				}
+			}
+			fmt.Printf("%s: %d obligations, %d not discharged\n", n, len(r.Obls), bad)
+		}
+	}
+}
